@@ -19,7 +19,7 @@ PROPS['C08'] = dict(
 )
 
 PROPS['C06'] = dict(
-    units=[('u_formulas.rs', 'B', None)],
+    units=[('u_formulas.rs', 'B', None), ('u_pair.rs', 'B', None), ('u_factory.rs', 'B', ['factory', 'querier'])],
     min_tagged=5,
     trusted=[T_VERUS, T_U256, T_UINT128, T_INTO, T_DERIVE],
     assumptions=['the pair handler and simulation report compute_swap\'s tuple unchanged (proved under C02/C12)'],
@@ -98,7 +98,7 @@ PROPS['C11'] = dict(
     explanation='execute_swap_operations (both entry points) emits one self-call per hop followed, when minimum_receive is given, by exactly one AssertMinimumReceive{asset = ask of the last hop, prev_balance = recipient balance at acceptance, minimum_receive, receiver = to or sender} and nothing after it; assert_minium_receive returns Ok only if called by the router itself and balance >= prev_balance + minimum_receive (checked_sub makes a decrease an error).',
 )
 PROPS['C13'] = dict(
-    units=[('u_router.rs', 'B', ['router', 'querier'])], min_tagged=12, trusted=ROUTER_TRUST,
+    units=[('u_router.rs', 'B', ['router', 'querier']), ('u_pair.rs', 'B', None)], min_tagged=12, trusted=ROUTER_TRUST,
     assumptions=[T_CHAIN, 'distinct pairs / router holding none of the route assets are hypotheses of the statement; that hop k+1 receives exactly what hop k paid follows from the pair contracts (C02) and the chain model, not from a machine-checked composition'],
     explanation='empty routes are rejected; assert_operations accepts iff the remove-offer/insert-ask fold leaves exactly one asset; hop k is a self-call carrying operation k and the final recipient only on the last hop; execute_swap_operation (router-only) offers exactly the router\'s whole balance of the offer asset to the factory-registered pair with to passed through; asset_into_swap_msg builds the native / cw20-send swap message; route simulations are the hop-by-hop folds of the pair queries.',
 )
@@ -120,6 +120,9 @@ FACTORY_TRUST = [T_VERUS, T_CW, T_API, T_FSTORE, T_BYTES, T_FQ, T_SERDE, T_DERIV
 PROPS['C07']['trusted'] = sorted(set(PROPS['C07']['trusted'] + FACTORY_TRUST))
 PROPS['C05']['trusted'] = sorted(set(PROPS['C05']['trusted'] + FACTORY_TRUST))
 PROPS['C10']['trusted'] = sorted(set(PROPS['C10']['trusted'] + FACTORY_TRUST))
+PROPS['C13']['trusted'] = sorted(set(PROPS['C13']['trusted'] + PAIR_TRUST))
+PROPS['C06']['trusted'] = sorted(set(PROPS['C06']['trusted'] + PAIR_TRUST + FACTORY_TRUST))
+PROPS['C06']['assumptions'] = PROPS['C06'].get('assumptions', []) + ['the commission rate c of the statement is the rate the pair was created with: the factory hands the requested rate (or the default) to the pair unchanged, the pair stores it at instantiate, nothing rewrites it (migrate, decimals update), and swap / simulation read that stored rate']
 
 PROPS['C14'] = dict(
     units=[('u_factory.rs', 'B', ['factory', 'querier']), ('u_pair.rs', 'B', None), ('u_router.rs', 'B', ['router', 'querier'])], min_tagged=25,
